@@ -98,8 +98,22 @@ fn o_fault(c: &FaultCase, st: &mut Stats) -> Result<(), String> {
     }
 }
 
+fn fuzz_seed_cases(target: &'static str) -> Vec<crate::fuzzrun::FuzzInput> {
+    let root = std::path::PathBuf::from(std::env::var("VERIF_ROOT").unwrap_or_else(|_| "/verif".into()));
+    crate::fuzzrun::seed_corpus(&root, target)
+}
+
+fn extra(ctx: &mut crate::engine::Ctx) -> serde_json::Value {
+    crate::fuzzrun::campaign(ctx, "fz_roundtrip", "fuzz-inputs:fz_roundtrip", 6_400_000, 4096)
+}
+
 pub fn sections() -> Vec<Box<dyn Section>> {
     vec![
+        Box::new(Listed {
+            name: "fuzz-inputs:fz_roundtrip".into(),
+            cases: Box::new(|_| fuzz_seed_cases("fz_roundtrip")),
+            oracle: crate::fuzzrun::oracle,
+        }),
         Box::new(Listed { name: "corpus".into(), cases: Box::new(|_| corpus().into_iter().map(str::to_string).collect()), oracle: o_string }),
         Box::new(Random {
             name: "spelled".into(),
@@ -175,7 +189,8 @@ pub fn prop() -> Prop {
         assumptions: &[
             "nothing is assumed about which strings are accepted",
             "a panic while parsing the original input is left to C06 (counts as not accepted here)",
+            "thorough tier: libFuzzer target fz_roundtrip (16 jobs, -runs fixed, half seeded from corpus/fuzz-seed, half from an empty corpus); an artefact counts only if the deterministic in-process oracle confirms it",
         ],
-        extra: None,
+        extra: Some(extra),
     }
 }
